@@ -37,14 +37,14 @@ def names_for(system, spelling="generic", alt=0):
     return tuple(out)
 
 
-def np_array(system, rows, momentum=False, shape=None, spelling=None):
+def np_array(system, rows, momentum=False, shape=None, spelling=None, dtype=numpy.float64):
     """NumPy vector array storing `rows` (list of coordinate tuples) in `system`."""
     d = len(system) + 1
     names = names_for(system, spelling or ("momentum" if momentum else "generic"))
-    dt = [(n, numpy.float64) for n in names]
+    dt = [(n, dtype) for n in names]
     arr = numpy.zeros(len(rows), dtype=dt)
     for j, n in enumerate(names):
-        arr[n] = [float(r[j]) for r in rows]
+        arr[n] = [r[j] for r in rows]
     if shape is not None:
         arr = arr.reshape(shape)
     cls = (NP_MOM if momentum else NP_GEN)[d]
@@ -72,11 +72,11 @@ def ak_record_name(d, momentum):
     return ("Momentum" if momentum else "Vector") + f"{d}D"
 
 
-def ak_flat(system, rows, momentum=False, spelling="generic", extra=None, alt=0):
+def ak_flat(system, rows, momentum=False, spelling="generic", extra=None, alt=0, dtype=numpy.float64):
     """flat Awkward vector array (records at depth 1)"""
     d = len(system) + 1
     names = names_for(system, spelling, alt)
-    cols = {n: numpy.array([float(r[j]) for r in rows], dtype=numpy.float64) for j, n in enumerate(names)}
+    cols = {n: numpy.array([r[j] for r in rows], dtype=dtype) for j, n in enumerate(names)}
     if extra:
         for k, vals in extra.items():
             cols[k] = numpy.asarray(vals)
